@@ -169,6 +169,21 @@ def variants(F, t1, t2, tick=lambda: None, extra_first=False, which=None):
             return [prefix + "b"]
     half = Half()
     out.append(Variant("explicit_plus_object", half.run, (t1, "tag"), [t1, t2], [half]))
+    # 10. EditableModule whose FIRST object tensor is a constant (no grad) and whose later ones are leaves: the gradient
+    #     copies of the later ones must still be installed (seeded defect C09/4: only the first pair was compared)
+    class EMC(xt.EditableModule):
+        def __init__(self):
+            self.c0 = torch.ones(3, dtype=t1.dtype)      # does not require grad
+            self.a = t1
+            self.b = t2
+
+        def run(self, *lead):
+            return call(lead, self.a * self.c0, self.b)
+
+        def getparamnames(self, methodname, prefix=""):
+            return [prefix + "c0", prefix + "a", prefix + "b"]
+    emc = EMC()
+    out.append(Variant("em_constant_first", emc.run, (), [t1, t2], [emc]))
     if which is not None:
         out = [v for v in out if v.name in which]
     return out
